@@ -12,6 +12,10 @@
 
 #include "dasmdef.h"
 
+#include "strutil.h"
+
+#include <ctype.h>
+
 tCodeChunkList CodeChunks;
 ChunkList      UsedCodeChunks, UsedDataChunks;
 
@@ -19,9 +23,27 @@ void (*Disassemble)(LargeWord Address, tDisassInfo* pInfo, Boolean IsData, int D
 
 FILE* Debug;
 
+Boolean DasmIntelSyntax;
+
+/* hexadecimal literal in the integer syntax the assembler uses for the selected target */
+
+void DasmHexLiteral(char* pDest, size_t DestSize, LargeWord Value) {
+    char Num[40];
+
+    HexString(Num, sizeof(Num), Value, 0);
+    if (DasmIntelSyntax) {
+        as_snprintf(
+                pDest, DestSize, "%s%s%c", isdigit((unsigned char)*Num) ? "" : "0", Num,
+                HexStartCharacter + ('h' - 'a'));
+    } else {
+        as_snprintf(pDest, DestSize, "$%s", Num);
+    }
+}
+
 void dasmdef_init(void) {
     InitCodeChunkList(&CodeChunks);
     InitChunk(&UsedDataChunks);
     InitChunk(&UsedCodeChunks);
-    Disassemble = NULL;
+    Disassemble     = NULL;
+    DasmIntelSyntax = False;
 }
